@@ -5,6 +5,7 @@ import itertools
 import json
 
 import common as C
+import srctie
 
 MFS_QUICK = [-1, 0, 1, 2, 3, 5]
 
@@ -696,6 +697,11 @@ def explore(ctx, rep, pid, cases, label, shard=300, coq=True):
 def run(ctx, pid, meta):
     rep = C.Report(ctx, meta)
     rep.add_obligations(C.proof_obligations(pid))
+    # source tie: ProcessManager.start / prepare_workers and the two handle() methods re-translated from the source text;
+    # srcproofs/Src_procman_common.v + Src_procman_<pid>.v re-checked against the generated definitions
+    src_obs, src_info = srctie.obligations(ctx, "procman", pid)
+    rep.add_obligations(src_obs)
+    rep.extra["source_tie"] = src_info
     corpus = [c for pp in ("C17", "C18") for _, c in C.load_corpus(pp)]
     broken = explore(ctx, rep, pid, corpus, "corpus") if corpus else False
     r = ctx.sub_rng("gen")
